@@ -93,6 +93,8 @@ def pop3d_jobs(ck, thorough):
     for files in (pops[2], pops[3]) if not thorough else (pops[1], pops[2], pops[3]):
         core = core_commands(len(files))
         for ln in range(1, L + 1):
+            if ln == 4 and files is pops[1]:
+                continue
             if ln == 4:
                 core = [c for c in core if c[0] not in (b"LAST", b"STAT", b"UIDL") and c != (b"DELE", b"0")]
             for seq in itertools.product(core, repeat=ln):
@@ -103,7 +105,7 @@ def pop3d_jobs(ck, thorough):
                 # dropped connection, after a listing that shows the marks
                 add(files, seq + ([(b"LIST", b"")] if seq[-1][0] not in (b"QUIT", b"LIST") else []), tag="enum")
     # (c) seeded random sessions: random populations, longer sequences, vanishing files, mixed case
-    nrand = 6000 if thorough else 1500
+    nrand = 12000 if thorough else 1500
     names = [b"1700000%03d.%d.mx.test" % (i, 500 + i) for i in range(12)]
     for r in range(nrand):
         n = rng.choice([0, 1, 2, 2, 3, 3, 4, 5, 6])
@@ -170,15 +172,15 @@ def popup_jobs(ck, thorough):
     jobs = []
     L = 3 if thorough else 2
     for ln in range(1, L + 1):
-        for seq in itertools.product(base, repeat=ln):
-            for ex in ((0, 1, -1) if ln < 3 else (1,)):
+        for seq in itertools.product(base if ln < 3 else base[:1] + base[3:4] + base[5:13] + base[19:20] + base[21:22], repeat=ln):
+            for ex in ((0, 1, -1) if ln < 3 else (0, 1)):
                 jobs.append({"host": hosts[0], "ex": ex, "cmds": list(seq) + [(b"NOOP", b"")]})
     for u in users:
         for pw in pws:
             for ex in (0, 1, 111, -1):
                 jobs.append({"host": rng.choice(hosts), "ex": ex, "cmds": [(b"USER", u), (b"PASS", pw), (b"NOOP", b"")]})
             jobs.append({"host": rng.choice(hosts), "ex": rng.choice([0, 2]), "cmds": [(b"STAT", b""), (b"apop", u + b" " + pw.replace(b" ", b"_"))]})
-    for _ in range(1200 if thorough else 300):
+    for _ in range(3000 if thorough else 300):
         cmds = []
         for _ in range(rng.randint(1, 8)):
             v, a = rng.choice(base)
@@ -245,7 +247,7 @@ def main():
 
     def run_model(name, module, cfg, **kw):
         # an own metadir per run: the default name is per process and millisecond, these runs start together
-        models[name] = tlc(module, cfg, timeout=1500, heap="4g", extra=("-noGenerateSpecTE",),
+        models[name] = tlc(module, cfg, timeout=1500, heap="4g",
                            metadir=ck.scratch.path("tlcmeta-" + re.sub(r"\W", "_", name)), **kw)
 
     plan = [("Pop3Blast(MaxLen=%d)" % blast_len, "Pop3Blast", cfgb, {"workers": 6}),
@@ -311,12 +313,18 @@ def main():
         log("C19: no session got a greeting")
 
     recs = [r for _, r in done]
-    keep = ("k", "files", "cmds", "reps", "after", "root", "greet", "rc", "tail", "host", "greetc", "invs", "ex")
-    recfile = ck.scratch.path("c19.ndjson")
-    write_ndjson(recfile, [{k: r[k] for k in keep if k in r} for r in recs])
-    bad, vres = tlc_validate_records("Pop3Rec", "Pop3Rec.cfg", recfile, len(recs), chunk=100, timeout=2400, heap="8g")
-    ck.add_tlc("Pop3Rec", vres)
-    log("C19: validation %.1fs" % vres.wall)
+    keep = ("k", "files", "mt", "cmds", "reps", "after", "root", "greet", "rc", "tail", "host", "greetc", "invs", "ex")
+    # validated in batches: TLC holds a whole record file in memory (every byte a value object)
+    bad, B, t2 = [], 7000, time.time()
+    for b0 in range(0, len(recs), B):
+        recfile = ck.scratch.path("c19-%d.ndjson" % b0)
+        part = recs[b0:b0 + B]
+        write_ndjson(recfile, [{k: r[k] for k in keep if k in r} for r in part])
+        pbad, vres = tlc_validate_records("Pop3Rec", "Pop3Rec.cfg", recfile, len(part), chunk=100, timeout=1800, heap="6g")
+        os.unlink(recfile)
+        bad += [(b0 + i, why) for i, why in pbad]
+        ck.add_tlc("Pop3Rec[%d..%d]" % (b0 + 1, b0 + len(part)), vres)
+    log("C19: validation %.1fs" % (time.time() - t2))
     ck.cov["traces_validated_against_impl"] = len(recs)
 
     # ---- models' results
@@ -398,8 +406,8 @@ def main():
     best = {}
     for idx, why in bad:
         (kind, jidx, job), r = done[idx - 1]
-        m = re.match(r'<<"(\w+)", (\d+)>>', why)
-        clause, step = (m.group(1), int(m.group(2))) if m else (why, 0)
+        m = re.match(r'"(\w+)"(?:, (\d+))?', why)
+        clause, step = (m.group(1), int(m.group(2) or 0)) if m else (why.strip('"'), 0)
         key = "%s:%s" % (clause, cmd_text(job, step))
         if key not in best or len(job["cmds"]) < len(best[key][0]["cmds"]):
             best[key] = (job, r, kind, step)
